@@ -308,7 +308,7 @@ def parseDump (toks : List String) : Option (List Spec.ONode) := Id.run do
     | none => return none
     | some (depth, name, n) =>
       stack := stack.take (depth - 1) ++ [Spec.lowerName name]
-      out := out ++ [{ n with path := stack }]
+      out := out ++ [{ n with path := stack, spell := some name }]
   return some out
 
 def wField (s : String) : Nat := (s.drop 2).toString.toNat?.getD 0
